@@ -85,7 +85,8 @@ class DevEnv(Env):
             if val is POISON:
                 self.sim.events += 1
                 self.sim.undefined_reads.append(
-                    (name, off, off in ent["written"], self.sim.events))
+                    (name, off, off in ent["written"], self.sim.events,
+                     ent["region"]))
         return val
 
     def awrite(self, name, idx, val):
@@ -148,7 +149,7 @@ class AccSim:
                 self.moves[mode] += 1
                 self.present[name] = {"arr": Arr(host.lb, host.ub, data),
                                       "rc": 1, "written": set(),
-                                      "mode": mode}
+                                      "mode": mode, "region": id(node)}
                 entered.append((name, mode))
         # "running the region on separate device memory": every statement
         # of the region, inside a compute construct or not, sees the device
@@ -169,7 +170,7 @@ class AccSim:
                     if never:
                         self.events += 1
                         self.copied_back.append((name, never[:4], mode,
-                                                 self.events))
+                                                 self.events, id(node)))
                     host.data[:] = ent["arr"].data
                 del self.present[name]
 
